@@ -150,8 +150,8 @@ func Stat(name string) (FileInfo, error)  { return os.Stat(name) }
 func ReadDir(name string) ([]DirEntry, error) {
 	return os.ReadDir(name)
 }
-func IsNotExist(err error) bool { return os.IsNotExist(err) }
-func IsExist(err error) bool    { return os.IsExist(err) }
+func IsNotExist(err error) bool            { return os.IsNotExist(err) }
+func IsExist(err error) bool               { return os.IsExist(err) }
 func ReadFile(name string) ([]byte, error) { return os.ReadFile(name) }
 
 // ---- crash-state materialisation ---------------------------------------------------
